@@ -114,17 +114,25 @@ func c20Run(w *W, removals bool) {
 			}
 		})
 	}
+	var removed []int
 	if nRem > 0 {
+		// a deque can also lose the element at the iterator's far end
+		farEnd := useDeque && simrt.Choose(3) == 0
 		simrt.Spawn("remover", func() {
 			for i := 0; i < nRem; i++ {
+				var x int
+				var ok bool
 				if useDeque {
-					if v.reverse {
-						dq.PopBack()
+					if v.reverse != farEnd {
+						x, ok = dq.PopBack()
 					} else {
-						dq.PopFront()
+						x, ok = dq.PopFront()
 					}
 				} else {
-					q.Remove()
+					x, ok = q.Remove()
+				}
+				if ok {
+					removed = append(removed, x)
 				}
 				simrt.Yield()
 			}
@@ -132,6 +140,61 @@ func c20Run(w *W, removals bool) {
 		w.Fault("concurrent-remove")
 	}
 	simrt.Quiesce()
+	if removals {
+		// "may omit removed items": an item that was never removed must not be
+		// omitted. A blocking iterator that is parked while such an item sits in
+		// the container gets one more chance (a further item is added, so even an
+		// implementation that only looks again on the next wake-up delivers it);
+		// if it still has not yielded the item it has skipped it for good.
+		unseen := func(r *iterRec) []int {
+			var out []int
+			for _, a := range added {
+				gone := false
+				for _, x := range removed {
+					gone = gone || x == a
+				}
+				for _, x := range r.yielded {
+					gone = gone || x == a
+				}
+				if !gone {
+					out = append(out, a)
+				}
+			}
+			return out
+		}
+		probe := false
+		for _, r := range its {
+			if r.blocking && r.state == 1 && len(unseen(r)) > 0 {
+				probe = true
+			}
+		}
+		if probe {
+			w.Probe("iterator-parked-with-unseen-item-after-removals")
+			before := make([][]int, len(its))
+			for i, r := range its {
+				before[i] = unseen(r)
+			}
+			added = append(added, 900)
+			add(900)
+			simrt.Quiesce()
+			for i, r := range its {
+				if !(r.blocking && r.state == 1) {
+					continue
+				}
+				still := unseen(r)
+				for _, a := range before[i] {
+					for _, b := range still {
+						if a == b {
+							site := simrt.SiteOf(r.task)
+							w.Violate("omitted-present-item", fmt.Sprintf("omitted-present-item:%s@%s", v.name, site),
+								"iterator %d is blocked at %s having yielded %v; %d was added, never removed (removed: %v), is still in the container and was not yielded even after a further item was added", i, site, r.yielded, a, removed)
+							break
+						}
+					}
+				}
+			}
+		}
+	}
 	inAdded := func(x int) bool {
 		for _, a := range added {
 			if a == x {
